@@ -68,7 +68,7 @@ layers), every abstract layer semantics and every input.  The BatchNorm kept as 
 the per-channel post-map; the folded variant is `bn_fold_eq`. -/
 theorem import_preserves_function (σ : Sem V) (inp : ℕ → List V) (p : Prog) (l : List ℕ)
     (α : ℕ → List Rat) (hl : computeLabels p = some l) (hws : wellShaped p = true)
-    (hsup : supported p = true) (hsem : ∀ n (hn : n < p.length), SemOK σ inp (p[n], n))
+    (hsup : supported p = true) (hsem : ∀ n (hn : n < p.length), SemOK σ (aliveMasks p l α) inp (p[n], n))
     (hα : OpenAlpha p l α) :
     let ms := aliveMasks p l α
     (runBoth σ ms inp p.zipIdx).1 = runSeed σ inp p.zipIdx ∧
